@@ -10,16 +10,24 @@ use core::cmp::Ordering;
 /// the callers (results are normal numbers).
 pub fn correctly_rounded(r: f64, exact: B, emin: i32) -> bool {
     let d = dec(r);
-    let vr = match place(d.neg, d.m as u128, d.e, emin) {
-        Some(v) => v,
-        None => return false,
-    };
     if exact.is_zero() {
         return r == 0.0;
     }
     if r == 0.0 || (r.to_bits() >> 52) & 0x7ff == 0 {
         return false; // callers keep the result in the normal range
     }
+    // after cancellation the result's last place can lie below 2^emin (it then has trailing zeros and
+    // the result is exact): refine the unit so that ulp(r) is an integer
+    let sh = if d.e < emin { (emin - d.e) as u32 } else { 0 };
+    if sh > 64 || !exact.abs().shl_fits(sh + 2) {
+        return false;
+    }
+    let emin = emin - sh as i32;
+    let exact = exact.shl(sh);
+    let vr = match place(d.neg, d.m as u128, d.e, emin) {
+        Some(v) => v,
+        None => return false,
+    };
     let err = vr.sub(exact); // > 0: r is larger than the exact value
     let ulp = match B::from_shl(1, (d.e - emin) as u32) {
         Some(u) => u,
